@@ -70,3 +70,21 @@ Proof.
     split; [vm_compute; repeat constructor; discriminate|]. split; vm_compute; reflexivity.
   - vm_compute. repeat split; reflexivity.
 Qed.
+
+(* ------------------------------------------------------------------ the other entry points *)
+Require Import ReaderMoreProofs.
+
+(* helper.go:ReadMessage called repeatedly on one connection ([read_messages]:
+   every call builds a fresh Reader with CheckUTF8, no size limit, no extension
+   and the read-all OnIntermediate on what the previous call left in the source;
+   the events of the call that ends in an error are kept, exactly as ReadMessage
+   returns the control frames collected so far together with the error): for
+   EVERY frame sequence, chunking and buffer sizes the concatenated results are
+   exactly the spec's events and the final error has the spec's class *)
+Theorem C04_read_message_meets_spec : forall fs state s bufs fuel,
+  wf_cfg (mkCfg state true 0 false) -> Forall wf_sframe fs -> wf_src s -> tl s = TEOF -> flat s = wire fs ->
+  (length (wire fs) + 2 <= fuel)%nat ->
+  let '(evs, e) := read_messages fuel bufs s state [] in
+  reader_monitor (mkCfg state true 0 false) true fs evs None e = true.
+Proof. exact read_message_meets_spec. Qed.
+Print Assumptions C04_read_message_meets_spec.
